@@ -761,6 +761,19 @@ def parse_model(model: str, *, check_syntax: bool = True) -> List[Symbol]:
                     # equation (compile only: never run the statement itself)
                     try:
                         compile(e, '<string>', 'exec')
+
+                        # Compile again as the code is going to run: in the
+                        # body of the model's `_evaluate()` method (where,
+                        # for example, `from x import *` and `global t` are
+                        # errors)
+                        with warnings.catch_warnings():
+                            warnings.simplefilter('ignore')  # Already recorded
+                            compile(
+                                'def _evaluate(self, t, *, errors, catch_first_error, iteration, **kwargs):\n'
+                                '    pass\n' + textwrap.indent(e, '    '),
+                                '<string>',
+                                'exec',
+                            )
                     except SyntaxError:
                         problem_statements.append((i, statement, e))
                         break
